@@ -75,6 +75,7 @@ fn worker(mode: &str, inp: &str, out: &str, k: usize, jobs: usize, skip: usize) 
         obs["i"] = json!(i);
         obs["case"] = case["case"].clone();
         obs["crash"] = json!("");
+        obs["input"] = case.clone();
         writeln!(o, "{}", serde_json::to_string(&obs).unwrap()).unwrap();
         o.flush().unwrap();
     }
